@@ -37,12 +37,15 @@ package service
 //@ spec vmsg(m *Message) bool = m != nil && m.JTMessage != nil && m.JTMessage.Header != nil && m.JTMessage.Header.Property != nil
 
 //@ func (*packageParse).completePack
+//@   mode contract
+//@   modifies mapof(p.subcontractingRecord), mapof(p.timeoutRecord), allelems([]byte), allof(packageComplete.updateTime), msg.JTMessage.Body
 //@   ensures C05.wf: wf(p)
 //@   ensures C14.inj: old(inj(p)) ==> inj(p)
 //@   ensures valid: result1 ==> vmsg(result0)
 //@   ensures C05.range: old(msg.JTMessage.Header.SubPackageSum) > 0 && (old(msg.JTMessage.Header.SubPackageNo) == 0 || (old(msg.JTMessage.Header.SubPackageNo) != 1 && int(old(msg.JTMessage.Header.SubPackageNo)) > old(len(p.subcontractingRecord[msg.JTMessage.Header.ID])))) ==> result1 == false && result0 == nil
 //@   ensures C05.unfragmented: old(msg.JTMessage.Header.SubPackageSum) == 0 ==> result1 == false && result0 == nil
 //@   ensures C05.flag: result1 ==> result0 != nil && result0.ExtensionFields.SubcontractComplete
+//@   ensures C06.link: result1 ==> result0.JTMessage == msg.JTMessage && result0 != msg
 //@   ensures C05.fresh: result1 ==> fresh(result0.JTMessage.Body) && fresh(result0.ExtensionFields.TerminalData)
 //@   loop 1 invariant count: 0 <= receivedSum && receivedSum <= rangeindex + 1
 //@   loop 2 invariant idx: 0 <= i && i <= sum
@@ -58,6 +61,10 @@ package service
 //@ spec oneframe(d []byte) bool = len(d) >= 2 && d[0] == 0x7e && d[len(d)-1] == 0x7e && forall(k, 1, len(d)-1, d[k] != 0x7e)
 //@ spec nocomplete(h []byte) bool = !(len(h) > 2 && h[0] == 0x7e && exists(k, 1, len(h), h[k] == 0x7e))
 //@ func (*packageParse).unpack
+//@   mode contract
+//@   modifies p.historyData, elems(p.historyData)
+//@   ensures C06.plain: forall(j, 0, len(msgs), !done(msgs[j]))
+//@   loop 1 invariant C06.plain: forall(j, 0, len(msgs), !done(msgs[j]))
 //@   ensures C04.one: forall(j, 0, len(msgs), oneframe(msgs[j].ExtensionFields.TerminalData))
 //@   ensures C04.rest: err == nil ==> nocomplete(p.historyData)
 //@   loop 1 invariant C04.one: forall(j, 0, len(msgs), oneframe(msgs[j].ExtensionFields.TerminalData))
@@ -91,6 +98,37 @@ package service
 //@   loop 1 invariant C09.msgs: msgs == nil || fresh(msgs)
 //@   loop 1 decreases len(p.historyData)
 
+// C06 (order): in the list parse hands to the reader loop, a message completed from sub-packages directly follows the
+// sub-package that completed it (they share the decoded frame object), so its reply leaves before the replies to frames
+// that arrived later in the same read.
+//@ spec done(m *Message) bool = m.ExtensionFields.SubcontractComplete
+//@ func (*packageParse).parse
+//@   requires C14.inj: inj(p)
+//@   ensures C14.inj: inj(p)
+//@   loop 1 invariant inj: inj(p)
+//@   ensures C06.valid: forall(j, 0, len(result0), vmsg(result0[j]))
+//@   ensures C06.order: forall(j, 0, len(result0), done(result0[j]) ==> j >= 1 && !done(result0[j-1]) && result0[j-1].JTMessage == result0[j].JTMessage)
+//@   loop 1 invariant idx: 0 - 1 <= rangeindex && rangeindex < len(frames)
+//@   loop 1 invariant wf: wf(p)
+//@   loop 1 invariant frames: forall(j, 0, len(frames), vmsg(frames[j]) && !done(frames[j]))
+//@   loop 1 invariant valid: forall(j, 0, len(msgs), vmsg(msgs[j]))
+//@   loop 1 invariant order: forall(j, 0, len(msgs), done(msgs[j]) ==> j >= 1 && !done(msgs[j-1]) && msgs[j-1].JTMessage == msgs[j].JTMessage)
+//@   loop 1 invariant own: fresh(msgs)
+//@   loop 1 invariant apart: disjoint(msgs, frames)
+// C14 (composition): re-requests are built only after the stale transfers were discarded - at the call of
+// supplementarySubPackage no pending transfer began more than 60 s ago
+//@   precall supplementarySubPackage C14.swept: forallb(k, 16, has(p.timeoutRecord, k) ==> !(clock() - 60000000000 > instant(p.timeoutRecord[k].createTime)))
+// stepping stones inside one iteration: after the frame was appended, after completePack, before the second append
+//@   precall append#2 s0.frames: forall(j, 0, len(frames), vmsg(frames[j]) && !done(frames[j])) && arg1[0] == frames[rangeindex+1]
+//@   precall completePack s1.valid: forall(j, 0, len(msgs), vmsg(msgs[j]))
+//@   precall completePack s1.order: forall(j, 0, len(msgs), done(msgs[j]) ==> j >= 1 && !done(msgs[j-1]) && msgs[j-1].JTMessage == msgs[j].JTMessage)
+//@   precall completePack s1.arg: arg1 == frames[rangeindex+1] && !done(arg1) && vmsg(arg1)
+//@   precall completePack s1.last: len(msgs) >= 1 && msgs[len(msgs)-1] == arg1
+//@   precall append#3 s2.valid: forall(j, 0, len(arg0), vmsg(arg0[j]))
+//@   precall append#3 s2.order: forall(j, 0, len(arg0), done(arg0[j]) ==> j >= 1 && !done(arg0[j-1]) && arg0[j-1].JTMessage == arg0[j].JTMessage)
+//@   precall append#3 s2.last: len(arg0) >= 1 && !done(arg0[len(arg0)-1]) && arg0[len(arg0)-1].JTMessage == arg1[0].JTMessage && vmsg(arg1[0]) && done(arg1[0])
+//@   precall append#3 s2.frames: forall(j, 0, len(frames), vmsg(frames[j]) && !done(frames[j]))
+
 //@ func newTerminalMessage
 //@   mode contract
 //@   modifies nothing
@@ -111,6 +149,8 @@ package service
 
 // C14: a transfer is discarded exactly when it began more than 60 s before the call's time.Now(); nothing else is touched.
 //@ func (*packageParse).deleteTimeoutPackage
+//@   mode contract
+//@   modifies mapof(p.subcontractingRecord), mapof(p.timeoutRecord)
 //@   ensures C14.wf: wf(p)
 //@   ensures C14.inj: old(inj(p)) ==> inj(p)
 //@   loop 1 invariant inj: old(inj(p)) ==> inj(p)
@@ -126,6 +166,12 @@ package service
 // C14: for every transfer idle for more than 5 s (relative to the call's first time.Now()) one 0x8003 body is built from
 // the first packet's serial number and exactly the empty slots, ascending; the transfer's idle clock restarts.
 //@ func (*packageParse).supplementarySubPackage
+//@   mode contract
+//@   modifies allof(jt808.Header.ReplyID), allof(jt808.BodyProperty), allof(packageComplete.updateTime)
+//@   ensures C06.valid: forall(j, 0, len(result0), vmsg(result0[j]) && !done(result0[j]))
+//@   ensures C06.fresh: fresh(result0)
+//@   loop 1 invariant C06.valid: forall(j, 0, len(msgs), vmsg(msgs[j]) && !done(msgs[j]))
+//@   loop 1 invariant C06.own: fresh(msgs)
 //@   requires C14.inj: inj(p)
 //@   ensures C14.wf: wf(p)
 //@   ensures C14.refreshed: forallb(k, 16, has(p.timeoutRecord, k) && old(clock()) - 5000000000 > old(instant(p.timeoutRecord[k].updateTime)) ==> instant(p.timeoutRecord[k].updateTime) >= old(clock()))
